@@ -20,6 +20,19 @@ def _cases(kind):
 
 
 def _run(path):
+    if os.environ.get("PYTHONHASHSEED") != "0":
+        # some recorded cases depend on string hashing inside third-party code (jsonpatch): replay under the hash seed
+        # bin/check uses, in a child interpreter
+        import subprocess
+        import sys
+        env = dict(os.environ, PYTHONHASHSEED="0",
+                   PYTHONPATH=os.pathsep.join([os.path.dirname(HERE), "/repo", os.environ.get("PYTHONPATH", "")]))
+        code = ("import json,sys; sys.path.insert(0, %r); import test_replay as t; "
+                "print('REPLAY ' + json.dumps(t._run(%r), default=repr))" % (HERE, path))
+        r = subprocess.run([sys.executable, "-c", code], env=env, capture_output=True, text=True)
+        lines = [ln for ln in r.stdout.splitlines() if ln.startswith("REPLAY ")]
+        assert r.returncode == 0 and lines, r.stdout[-2000:] + r.stderr[-2000:]
+        return json.loads(lines[-1][7:])
     from mc import core
     data = json.load(open(path))
     mod = importlib.import_module(core.CHECKS[data["property"]])
